@@ -496,7 +496,8 @@ Proof.
         split; [exact I|]. now apply store_ok_set.
       * destruct (cursor_seek _ pos sf) as [n|]; cbn; auto. destruct (n <=? i64_max)%Z; cbn; auto.
         split; [exact I|]. now apply store_ok_set.
-    + destruct (put st h x data) as [st'|] eqn:Ep; cbn; auto. split; [exact I|]. eapply put_ok; eauto.
+    + destruct (write_too_large x data); [cbn; auto|].
+      destruct (put st h x data) as [st'|] eqn:Ep; cbn; auto. split; [exact I|]. eapply put_ok; eauto.
     + destruct x; cbn; auto. split; [exact I|]. now apply mem_publish_ok.
     + destruct x; cbn; auto; split; try exact I; try (apply store_ok_set; [|exact I]); try exact Hst.
       now apply mem_publish_ok.
